@@ -29,7 +29,7 @@ def jobs(tier):
             if n == 16 and heavy:
                 continue            # secret exponents/shift counts: 2^n paths, stated bound n <= 8
             for g in (None, "sym"):
-                if g == "sym" and heavy and (tier == "quick" or n > 4):
+                if g == "sym" and heavy and n > 4:
                     continue
                 if g == "sym" and n > 4 and "arr" in e.tags:
                     continue
